@@ -3,6 +3,7 @@
 package table
 
 import (
+	"bytes"
 	"encoding/json"
 	"errors"
 	"strconv"
@@ -326,4 +327,44 @@ func VH_C14_vacuity() {
 	_, err := m.createTable("a")
 	verif.Assume(err == nil)
 	verif.Assert(false, "vacuity")
+}
+
+type vhSnapCapture struct{ chunks [][]byte }
+
+func (c *vhSnapCapture) Write(p []byte) (int, error) {
+	c.chunks = append(c.chunks, p)
+	return len(p), nil
+}
+
+// VH_C14_snapshot: a replica of the catalogue store that holds an arbitrary
+// stale catalogue is caught up by a snapshot of an arbitrary source
+// catalogue: afterwards a manager on that replica lists and finds exactly the
+// source's tables (deleted names are gone, free names can be created).
+func VH_C14_snapshot() {
+	src := vhArbCatalogueN(2)
+	rs2, lf2, base2 := kv.VHNewStoreOn(src.nh, 2)
+	verif.Assume(base2 > 1)
+	for i, n := range vhNames[len(vhNames)-2:] {
+		if !verif.Bool() {
+			continue
+		}
+		t := Table{Name: n, ClusterID: tableIDsRangeStart + 5 + uint64(i)}
+		b, _ := json.Marshal(&t)
+		kv.VHPutRaw(lf2, kv.Pair{Key: storedTableName(n), Value: string(b), Ver: 1})
+		if _, ok := src.tables[n]; !ok {
+			verif.Cover("stale-name")
+		}
+	}
+	ctx, err := src.lf.PrepareSnapshot()
+	verif.Assert(err == nil, "prepare succeeds")
+	w := &vhSnapCapture{}
+	verif.Assert(src.lf.SaveSnapshot(ctx, w, nil, nil) == nil && len(w.chunks) == 1, "save succeeds")
+	if len(w.chunks) != 1 {
+		return
+	}
+	verif.Assert(lf2.RecoverFromSnapshot(bytes.NewReader(w.chunks[0]), nil, nil) == nil, "install succeeds")
+	m := vhManagerOn(rs2, 2)
+	m.nh = src.nh
+	src.checkListing(m)
+	verif.Cover("end")
 }
